@@ -110,6 +110,13 @@ def build_pool(ctx, optkeys, structkeys=()):
         for vn, ve in [] if k not in structkeys else (('ranges', '[{ranges: [[-1, 256]], value: "red"}]'), ('nums', '[-1, 256, 65536]'), ('objnum', '{a: -1, b: 256}')):
             extra = '' if k == 'color' else ', color: true'
             B.append(dict(name='s_%s_%s' % (k, vn), expr='{%s: %s%s}' % (json.dumps(k), ve, extra), inp=True, benign=False, pair=False, base=False))
+    # two-member option objects: a rendering MODE next to a NUMBER out of its range.  A number is checked (clamped) for the code that
+    # uses it directly, but a mode can select other code that picked the number up before the check; one member alone shows nothing.
+    # Run on an input that holds a binary, which is what the modes render.
+    for mode in ('snippet', 'truncate', 'hex', 'md5', 'base64', 'byte_array', 'string'):
+        for num in ('sizebase', 'addrbase', 'line_bytes', 'display_bytes', 'array_truncate', 'string_truncate', 'depth'):
+            for vn, ve in (('neg1', '-1'), ('one', '1'), ('v37', '37'), ('e9', '1e9')):
+                B.append(dict(name='m_%s_%s_%s' % (mode, num, vn), expr='{bits_format: "%s", %s: %s}' % (mode, num, ve), inp=True, benign=False, pair=False, base=False))
     for i, b in enumerate(B):
         b['id'] = i + 1
         b['pair'] = b['name'] in PAIR_POOL
@@ -439,16 +446,30 @@ def run(ctx):
                         continue
                     vals[0] = inp
                 ecalls.append(dict(f=f['i'], pos=p, vals=vals, arm='options'))
+    # mode x number objects: on an input that holds a binary; the number bases always, the other numbers one in four (by seed)
+    mids = [p for p in pool if p['name'].startswith('m_')]
+    binid = byname_pool.get('bin_unaligned')
+    mcalls = []
+    for f, p in optpos:
+        for k, m in enumerate(mids):
+            if not (('_sizebase_' in m['name'] or '_addrbase_' in m['name']) or cfg.get('pairs') or (k + ctx.seed) % 4 == 0):
+                continue
+            vals = list(context(f))
+            vals[p] = m['id']
+            if binid:
+                vals[0] = binid
+            mcalls.append(dict(f=f['i'], pos=p, vals=vals, arm='options'))
     stride = 1
     sids = {p['id'] for p in pool if p['name'].startswith('s_')}
     scalls = [c for c in ocalls if c['vals'][c['pos']] in sids]       # few (structured members only): all of them run
-    ocalls = [c for c in ocalls if c['vals'][c['pos']] not in sids]
+    midset = {m['id'] for m in mids}
+    ocalls = [c for c in ocalls if c['vals'][c['pos']] not in sids and c['vals'][c['pos']] not in midset]
     if len(ocalls) > cfg['opt_budget']:
         stride = -(-len(ocalls) // cfg['opt_budget'])
         ocalls = ocalls[rng.randrange(stride)::stride]
     ocalls = [c for c in ocalls if c['vals'][c['pos']] not in set(estr)]
-    ocalls = scalls + ecalls + ocalls
-    ctx.cov['option_arm'] = dict(positions=len(optpos), calls=len(ocalls), stride=stride, structured_member_calls=len(scalls), empty_string_member_calls=len(ecalls))
+    ocalls = scalls + ecalls + mcalls + ocalls
+    ctx.cov['option_arm'] = dict(positions=len(optpos), calls=len(ocalls), stride=stride, structured_member_calls=len(scalls), empty_string_member_calls=len(ecalls), mode_and_number_calls=len(mcalls))
     calls += ocalls
 
     # ---- 5. thorough: all pairs over the pair pool for arity <= 2 (others benign)
